@@ -144,7 +144,7 @@ func checkC02(c *Ctx) {
 		c02Prefix(c, p, pi)
 		c02Index(c, p, pi.fn, parsers)
 		c02Consumption(c, p, pi)
-		c02PartialAccumulates(c, p, pi)
+		c02PartialAccumulates(c, p, pi, "C02-R11")
 	}
 	checkChunkOwnership(c, p, "C02-R10")
 	collect := collectLoopFn(p)
